@@ -154,4 +154,20 @@ structure PulseRow where
   slots : List Nat
 deriving DecidableEq, Repr
 
+/-- an epoch as `DemesUtil.slice` sees it in `g.asdict()` (its start time is the previous epoch's end time / the deme's start) -/
+structure InEpoch where
+  fn : SizeFn
+  ss : Rat
+  es : Rat
+  et : Rat
+deriving Repr
+
+/-- … and as `_shift_deme_time` leaves it: `es = none` when `_size_at` has no value for the size function -/
+structure OutEpoch where
+  fn : SizeFn
+  ss : Rat
+  es : Option Sym
+  et : Rat
+deriving Repr
+
 end DadiVerif.DemesConv
